@@ -17,7 +17,16 @@
 //   mgr_dec <key> <id> <nonce> <ct>         -> CryptoManager::decrypt_with_key: `<pt>` | `nullopt`
 //   mgr_rt <key> <id> <pt>                  -> static encrypt then static decrypt: `<nonce> <data> <pt'>`
 //   mgr_obj <key> <id> <pt>                 -> one CryptoManager{key}: `<key_> <nonce> <data> <pt'>`
+//
+// VERIF_INTERNALS (default 1): `qr`, `block` and `ctr` call anonymous-namespace helpers by name, which a
+// harmless rename breaks. Built with -DVERIF_INTERNALS=0 the harness uses the public API only
+// (ChaCha20::apply, CryptoManager) and answers `internals-unavailable` to those three ops (the driver
+// echoes that line without judging it; the plugin does not generate them).
 #include "common/lineproto.hpp"
+
+#ifndef VERIF_INTERNALS
+#define VERIF_INTERNALS 1
+#endif
 
 #include "src/crypto/ChaCha20.cpp"
 #include "src/crypto/CryptoManager.cpp"
@@ -90,6 +99,7 @@ int main(int argc, char** argv) {
         // a loop that no longer terminates must cost seconds, not the batch timeout: SIGALRM kills the
         // process and the framework records the op as crashed (signal:SIGALRM)
         struct Alarm { Alarm() { ::alarm(10); } ~Alarm() { ::alarm(0); } } guard;
+#if VERIF_INTERNALS
         if (t[0] == "qr" && t.size() == 5) {
             std::uint32_t a = std::stoul(t[1], nullptr, 16), b = std::stoul(t[2], nullptr, 16),
                           c = std::stoul(t[3], nullptr, 16), d = std::stoul(t[4], nullptr, 16);
@@ -101,6 +111,9 @@ int main(int argc, char** argv) {
             chacha20_block(key_arg(t[1]), nonce_arg(t[2]), u32_arg(t[3]), buf);
             return verif::to_hex(buf);
         }
+#else
+        if (t[0] == "qr" || t[0] == "block" || t[0] == "ctr") return "internals-unavailable";
+#endif
         if (t[0] == "apply" && t.size() == 5) {
             const auto in = bytes_arg(t[4]);
             Bytes out;
@@ -120,9 +133,11 @@ int main(int argc, char** argv) {
             ChaCha20::apply(key_arg(t[1]), nonce_arg(t[2]), mid, out, u32_arg(t[3]));
             return canon(out);
         }
+#if VERIF_INTERNALS
         if (t[0] == "ctr" && t.size() == 2) {
             return std::to_string(derive_counter(fixed<32>(t[1])));
         }
+#endif
         if (t[0] == "mgr_enc" && t.size() == 4) {
             const ChunkData pt = bytes_arg(t[3]);
             const auto ct = CryptoManager::encrypt_with_key(key_arg(t[1]), fixed<32>(t[2]), pt);
